@@ -106,6 +106,12 @@ def generate(tier, seed, ctx):
         R.append("c19.flatten %d %s" % (len(ls), " ".join(ilst(l) for l in ls)))
         ls2 = [list(l) for l in ls] if rng.random() < 0.5 else [il() for _ in range(rng.randint(0, 3))]
         R.append("c19.listseq2 %d %s %d %s" % (len(ls), " ".join(ilst(l) for l in ls), len(ls2), " ".join(ilst(l) for l in ls2)))
+        # same number of rows and same flattened content, different row boundaries (ragged re-partition)
+        flat = [v for l in ls for v in l]
+        if len(ls) >= 2:
+            cuts = sorted(rng.randint(0, len(flat)) for _ in range(len(ls) - 1))
+            rep = [flat[a:b] for a, b in zip([0] + cuts, cuts + [len(flat)])]
+            R.append("c19.listseq2 %d %s %d %s" % (len(ls), " ".join(ilst(l) for l in ls), len(rep), " ".join(ilst(l) for l in rep)))
         n = rng.randint(0, 6)
         R.append("c19.transpose2 %s %s" % (ilst(il(n)), ilst(il(n if rng.random() < 0.8 else n + 1))))
     for n in range(0, 6 if thorough else 5):   # Sub_List: exhaustive index grid
